@@ -282,8 +282,20 @@ impl<U: User, E: Engine<U>> Builder<U, E> {
             }
             G::Disj(gs) => K::disj_vec(gs.iter().map(|g| self.goal::<K>(g)).collect()),
             G::Fresh(vs, gs) => {
-                let vars = vs.iter().map(|v| e.var(*v)).collect();
-                Fresh::new(vars, self.conj::<K>(gs)).cast_into()
+                // like the macro: every fresh clause creates its own variables when the goal is
+                // constructed (so two clauses using the same name never share a variable)
+                let mut b = Builder {
+                    env: Rc::clone(&self.env),
+                    probes: self.probes.clone(),
+                };
+                let mut vars = vec![];
+                for v in vs {
+                    let name: &'static str = if (*v as usize) < VAR_NAMES.len() { VAR_NAMES[*v as usize] } else { "v" };
+                    let nv = LTerm::var(name);
+                    vars.push(nv.clone());
+                    b = b.with_binding(*v, nv);
+                }
+                Fresh::new(vars, b.conj::<K>(gs)).cast_into()
             }
             G::Closure(body) => {
                 let b = Builder {
